@@ -189,8 +189,27 @@ def big_decode(ctx, modes):
     return n
 
 
+def late_design(ctx):
+    """Design level: an operation that gives up while its stream is still alive on the device, late replies during the next one."""
+    for rb in (False, True):
+        for (n1, n2) in ((2, 2), (0, 1), (3, 0)) if not ctx.quick else ((2, 2), (0, 1)):
+            cfg = tlc.cfg_text(constants={'N1': str(n1), 'N2': str(n2), 'RollbackOnTimeout': 'TRUE' if rb else 'FALSE'},
+                               invariants=['NoCrossTalk', 'CompleteWhenDone', 'UniqueIds'], deadlock=True)
+            r = tlc.run('AdbLate', cfg, workers=4)
+            ctx.add_tlc(r, 'AdbLate N1=%d N2=%d RollbackOnTimeout=%s' % (n1, n2, rb))
+            names = [v['name'] for v in r.violations]
+            if not rb and names:
+                ctx.violation('C01.' + names[0] + '(design)', dict(kind='design-counterexample', spec='AdbLate', state=r.violations[0]['trace'][-1][:600]))
+                return
+            if rb and (n1, n2) == (2, 2) and not names:
+                raise tlc.TlcError('vacuity: AdbLate with RollbackOnTimeout violates nothing')
+
+
 def body(ctx):
     rng = random.Random(ctx.seed)
+    late_design(ctx)
+    if ctx.violations:
+        return
     decode_table(ctx, 6 if ctx.quick else 7)
     scs = scenarios(ctx, 4 if ctx.quick else 5, 4)
     ctx.extra['scenarios'] = len(scs)
